@@ -1,7 +1,19 @@
 """Property -> rules registry."""
 import r_ticket
+import r_m1
+import r_ovf
 
 PROPS = {
+    "C16": {
+        "rules": [r_ovf.rule_ovf, r_ovf.rule_zero],
+        "floors": {},
+        "explanation": "tbd",
+    },
+    "C01": {
+        "rules": [r_m1.rule_one, r_m1.rule_prov, r_m1.rule_amt, r_m1.rule_clamp, r_m1.rule_endguard],
+        "floors": {},
+        "explanation": "tbd",
+    },
     "C07": {
         "rules": [r_ticket.rule_ticket, r_ticket.rule_gate, r_ticket.rule_ord, r_ticket.rule_sticky, r_ticket.rule_cell],
         "floors": {},
